@@ -129,4 +129,50 @@ theorem hierarchy : pyBase .NoSuchInstance = .SnmpError ∧ pyBase .SnmpAuthErro
 example : opGetToPython (.getResponse 1 0 0 [⟨[43, 6], .int 42⟩]) = .value (.scalar (.int 42)) := by decide
 example : opGetToPython (.getResponse 1 0 0 [⟨[43, 6], .noSuchObject⟩]) = .raise .NoSuchInstance := by decide
 
+/-! ## the async client's receive loop -/
+
+theorem asyncRecv_cons_ne (a : PyOut) (rest : List PyOut) (h : a ≠ .raise .BlockingIOError) :
+    Py.asyncRecv (a :: rest) = a := by
+  cases a with
+  | value v => rfl
+  | panic w => rfl
+  | raise e => cases e <;> first | rfl | exact absurd rfl h
+
+/-- **C07.async_recv**: the awaited call ends with the FIRST outcome of the socket that is not
+"nothing for me yet" — value or exception, unchanged — and with `TimeoutError` when there is none
+before the deadline; it never surfaces `BlockingIOError` -/
+theorem async_recv (attempts : List PyOut) :
+    Py.asyncRecv attempts ≠ .raise .BlockingIOError ∧
+    (∀ (pre : List PyOut) (r : PyOut) (post : List PyOut), attempts = pre ++ r :: post →
+      (∀ x ∈ pre, x = .raise .BlockingIOError) → r ≠ .raise .BlockingIOError → Py.asyncRecv attempts = r) ∧
+    ((∀ x ∈ attempts, x = .raise .BlockingIOError) → Py.asyncRecv attempts = .raise .TimeoutError) := by
+  refine ⟨?_, ?_, ?_⟩
+  · induction attempts with
+    | nil => simp [Py.asyncRecv]
+    | cons a rest ih =>
+      by_cases h : a = .raise .BlockingIOError
+      · subst h; simpa [Py.asyncRecv] using ih
+      · rw [asyncRecv_cons_ne a rest h]; exact h
+  · intro pre
+    induction pre generalizing attempts with
+    | nil =>
+      intro r post he _ hr
+      subst he
+      exact asyncRecv_cons_ne r post hr
+    | cons p pre' ih =>
+      intro r post he hp hr
+      subst he
+      have hp0 : p = .raise .BlockingIOError := hp p (by simp)
+      subst hp0
+      simp only [List.cons_append, Py.asyncRecv]
+      exact ih _ r post rfl (fun x hx => hp x (by simp [hx])) hr
+  · induction attempts with
+    | nil => intro _; rfl
+    | cons a rest ih =>
+      intro h
+      have ha : a = .raise .BlockingIOError := h a (by simp)
+      subst ha
+      simp only [Py.asyncRecv]
+      exact ih (fun x hx => h x (by simp [hx]))
+
 end GufoSnmp.C07
